@@ -136,10 +136,13 @@ Section Token.
 
   (* C12.3 (b): every consumer poll that does not end the stream takes backpressure_release_notify, in the same
      critical section in which it pops / registers; the taken waker goes into the consumer's wake slot *)
-  Theorem consumer_poll_takes_backpressure s s' :
-    step F f s ACPoll = Some s' -> s'.(cst) <> CDone -> s'.(bp) = None /\ s'.(cwk) = wk_of s.(bp).
+  Theorem consumer_poll_takes_backpressure s a s' :
+    a = ACPoll \/ a = ACProbe ->
+    step F f s a = Some s' -> s'.(cst) <> CDone -> s'.(bp) = None /\ s'.(cwk) = wk_of s.(bp).
   Proof.
-    unfold step. destruct (pollable s); [|done]. destruct (pending s); [destruct (closed s)|].
-    all: intros [= <-]; cbn; try done.
+    intros Ha Hs. assert (Hp : poll_step F s = Some s').
+    { destruct Ha as [-> | ->]; cbn in Hs; [destruct (pollable s)|destruct (probe_pollable s)]; done. }
+    unfold poll_step in Hp. destruct (pending s); [destruct (closed s)|].
+    all: injection Hp as <-; cbn; try done.
   Qed.
 End Token.
